@@ -45,6 +45,8 @@ func propC11(c *Check) {
 	c.Rule("R4", "validator creation never overwrites: a validator record built from scratch is stored only under a key that was looked up and found absent (re-creating a validator would wipe the coins its record still holds)")
 	c.freshRecordsNeverOverwrite("R4", "x/locking/keeper", "Validators", 1)
 	c.Rule("R5", "every slash fraction the parameter validation accepts lies in [0, 1): a negative fraction would make a slash credit the offender and drive the slashed total negative, a fraction >= 1 would take more than is held")
+	c.Rule("R6", "a queued unlock is delivered once: the locking hand-over consumes exactly the unlocks it emitted (C06/R2 on the Unlocks list)")
+	c.DependOn("R6", "C06", propC06, map[string]bool{"R2": true}, regexp.MustCompile(`Unlock.*@ x/locking/keeper\.Keeper\.DequeueLockingModuleTx`), "an unlock delivered twice releases more than was requested and more than was taken from the holding")
 	c.slashFractionsValidated("R5")
 	vt := p.LookupType("x/locking/types", "Validator")
 	allowedL := map[string]bool{"x/locking/keeper.Keeper.lock": true, "x/locking/keeper.Keeper.unlock": true, "x/locking/keeper.Keeper.handleVoteInfo": true,
@@ -251,6 +253,34 @@ func propC12(c *Check) {
 		} else {
 			c.Violated("R1", "moved-amount-paired @ "+FuncKey(urp), p.Pos(urp.Pos()), "pool.Goat = "+goat+" ; pool.Remain = "+remain)
 		}
+		// the move happens in every block: a success path may go round the pool.Goat store only over the
+		// outcome "the amount to move is zero" (a block that books gas and grants but emits nothing although a
+		// grant remains shifts the whole schedule)
+		if mg != nil {
+			var goatSt []ssa.Instruction
+			for _, s := range p.renderedStores(urp) {
+				if s.addr == "RewardPool.Get()#0.Goat" {
+					goatSt = append(goatSt, s.in)
+				}
+			}
+			moved := strings.TrimSuffix(strings.TrimPrefix(mg[1], "sdkmath.NewIntFromBigInt("), ")")
+			zero := map[edgeKey]bool{}
+			for _, ef := range p.EdgeFacts(urp) {
+				f := noOrd(ef.Fact)
+				if f == "(0 == Int.Sign("+moved+"))" || f == "(Int.Sign("+moved+") <= 0)" || f == "!Int.IsPositive("+mg[1]+")" || f == "Int.IsZero("+mg[1]+")" {
+					zero[ef.Key()] = true
+				}
+				// nothing remains of the grant after this block's grants were added: min(remaining, …) is zero
+				if mr != nil && (f == "!Int.IsPositive("+mr[1]+")" || f == "Int.IsZero("+mr[1]+")" || f == "(0 == Int.Sign(Int.BigInt("+mr[1]+")))") {
+					zero[ef.Key()] = true
+				}
+			}
+			if t, path := (&PathSearch{Fn: urp, AvoidInstr: instrSet(goatSt), AvoidEdges: zero, IsTarget: successTargets(urp)}).Find(); t != nil {
+				c.Violated("R1", "emission-every-block @ "+FuncKey(urp), p.InstrPos(t), "a success path skips the move into the distribution pool without the moved amount being zero", p.describePath(path)...)
+			} else {
+				c.Held("R1", "emission-every-block @ "+FuncKey(urp), p.Pos(urp.Pos()), "the pool.Goat store is bypassed only when the amount to move is zero")
+			}
+		}
 		// min selection: remaining replaces the reward only when reward > remaining
 		facts := p.EdgeFacts(urp)
 		okMin, okHalv, okGas := false, false, false
@@ -289,6 +319,7 @@ func propC12(c *Check) {
 	}
 	// DistributeReward
 	dr := p.MustFn("x/locking/keeper.Keeper.DistributeReward")
+	c.HookRuns("R2", "x/locking/module.AppModule.BeginBlock", "x/locking/keeper.Keeper.BeginBlocker", "x/locking/keeper.Keeper.DistributeReward")
 	c.touch(dr)
 	{
 		i := "φ{(1 + @)|0}"
